@@ -266,6 +266,16 @@ def extract_lambda_from_source(source: str):
     return source[node.first_token.startpos:node.last_token.endpos]
 
 
+def count_lambdas(codeobj: CodeType):
+    """Number of lambda expressions nested in ``codeobj``"""
+    count = 0
+    for co in codeobj.co_consts:
+        if isinstance(co, CodeType):
+            count += (co.co_name == "<lambda>") + count_lambdas(co)
+
+    return count
+
+
 def extract_lambda_from_func(func: FunctionType):
     """Get source from function/lambda expression.
 
@@ -280,6 +290,14 @@ def extract_lambda_from_func(func: FunctionType):
     lambdas = list(n for n in ast.walk(atok.tree)
                    if isinstance(n, ast.Lambda) and
                    n.lineno == row + 1)     # row is 0-indexed
+
+    if len(lambdas) > 1:
+        # A lambda nested in another one can start on the same line.
+        # Find func by the number of lambdas nested in it.
+        nested = count_lambdas(func.__code__)
+        lambdas = list(n for n in lambdas
+                       if sum(isinstance(m, ast.Lambda)
+                              for m in ast.walk(n.body)) == nested)
 
     if len(lambdas) == 1:
         node = lambdas[0]
